@@ -191,7 +191,7 @@ class C17(Check):
     rule = ("models: InBounds-type invariants of PGMIndex (sentinel-terminated scans, next(it)), Variants (bucket slice, Elias-Fano select arguments, window search), "
             "Multidim (scan never reads data[end], jump landing), Mapped (gallop), DynamicPGM (branch-free lower bound) on every input of their small universes; "
             "traces: the quick corpora of all recorders (n = 1,2,3, empty dynamic containers, queries at lowest(), first-1, last+1, max-1, iterators driven to end(), "
-            "boxes reaching the last stored code, every object-lifetime history) executed by ASan-instrumented binaries")
+            "boxes reaching the last stored code, every object-lifetime history, every rejected construction and the accepted controls around it, the iterator's tournament tree) executed by ASan-instrumented binaries")
 
     @property
     def builds(self):
@@ -201,7 +201,9 @@ class C17(Check):
               {"name": "asan_mapped", "sources": ["rec_mapped.cpp"], "compiler": "clang++", "extra_flags": ASAN},
               {"name": "asan_md", "sources": ["rec_md.cpp"], "compiler": "clang++", "extra_flags": ASAN},
               {"name": "asan_capi", "sources": ["rec_capi.cpp", cpgm()], "compiler": "clang++", "extra_flags": ASAN},
-              {"name": "rec_lifecycle_asan", "sources": ["rec_lifecycle.cpp"], "compiler": "clang++", "extra_flags": ASAN}]
+              {"name": "rec_lifecycle_asan", "sources": ["rec_lifecycle.cpp"], "compiler": "clang++", "extra_flags": ASAN},
+              {"name": "asan_reject", "sources": ["rec_reject.cpp", cpgm()], "compiler": "clang++", "extra_flags": ASAN},
+              {"name": "asan_loser", "sources": ["rec_loser.cpp"], "compiler": "clang++", "extra_flags": ASAN}]
         return b
 
     def pre_record(self, tier, seed, bins, work):
@@ -236,7 +238,9 @@ class C17(Check):
               Recording("asan_md", ["--shards", "3"], "multidimensional (ASan)", env=ASAN_ENV, timeout=1500),
               Recording("asan_capi", ["--part", "static"], "C static (ASan)", env=ASAN_ENV, timeout=1500),
               Recording("asan_capi", ["--part", "dynamic"], "C dynamic (ASan)", env=ASAN_ENV, timeout=1500),
-              Recording("rec_lifecycle_asan", ["--shards", "2"], "lifecycle (ASan)", env=ASAN_ENV, timeout=1500)]
+              Recording("rec_lifecycle_asan", ["--shards", "2"], "lifecycle (ASan)", env=ASAN_ENV, timeout=1500),
+              Recording("asan_reject", [], "rejected and accepted constructions (ASan)", env=ASAN_ENV, timeout=1500),
+              Recording("asan_loser", ["--shards", "2"], "loser tree (ASan)", env=ASAN_ENV, timeout=1500)]
         return r
 
 
